@@ -1,3 +1,2 @@
-import Driver.Loop
-/-! Driver for group `lazy`: replace `[]` by this group's handlers. -/
-def main : IO Unit := TF.Driver.run []
+import Driver.Lazy
+def main : IO Unit := TF.Driver.run [TF.Driver.handleLazy, TF.Driver.handleEngine]
